@@ -5,6 +5,27 @@ from rules import printers as P
 NEED = ("dev",)
 
 
+def comment_to_line_end(ctx, rid, G):
+    """every comment rule stops at the physical end of the line only (shared with C10: a comment in a layout gap that contains a
+    second `//` - a URL - would otherwise end the gap early and change how the lines around it are read)"""
+    for r in ("comment", "eol_comment", "inline_comment"):
+        if r not in G.rules:
+            continue
+        negs = [e["e"] for e in G.walk(G.expr(r)) if e["k"] == "neg"]
+        if not negs:
+            ctx.inst(rid, "rule=%s" % r, None, "no stop look-ahead found in %s" % r, "blots-core/src/grammar.pest")
+            continue
+        bad = []
+        for ng in negs:
+            try:
+                fc = G.first_chars(ng)
+            except Exception:
+                fc = set()
+            if "/" in fc:
+                bad.append(ng.get("v") or ng["k"])
+        ctx.inst(rid, "rule=%s" % r, not bad, "stops at %s%s" % ([ng.get("v") or ng["k"] for ng in negs], "" if not bad else ": %s can start with `/`, i.e. with a comment of its own" % bad), "blots-core/src/grammar.pest")
+
+
 def run(ctx):
     core, cli, wasm = ctx.core, ctx.cli, ctx.wasm
     G = Grammar(ctx.grammar)
@@ -97,22 +118,7 @@ def run(ctx):
     panics.driver_appends_only(ctx, "C09.R9", [core, cli, wasm])
     # ---- R6 a comment is the rest of the physical line
     ctx.rule("C09.R6", "every comment rule consumes the text up to the physical end of the line: its stop look-ahead cannot itself start with `//` (a stop rule that includes an inline comment cuts a comment in two at a second `//`, e.g. a URL)", floor=3)
-    for r in ("comment", "eol_comment", "inline_comment"):
-        if r not in G.rules:
-            continue
-        negs = [e["e"] for e in G.walk(G.expr(r)) if e["k"] == "neg"]
-        if not negs:
-            ctx.inst("C09.R6", "rule=%s" % r, None, "no stop look-ahead found in %s" % r, "blots-core/src/grammar.pest")
-            continue
-        bad = []
-        for ng in negs:
-            try:
-                fc = G.first_chars(ng)
-            except Exception:
-                fc = set()
-            if "/" in fc:
-                bad.append(ng.get("v") or ng["k"])
-        ctx.inst("C09.R6", "rule=%s" % r, not bad, "stops at %s%s" % ([ng.get("v") or ng["k"] for ng in negs], "" if not bad else ": %s can start with `/`, i.e. with a comment of its own" % bad), "blots-core/src/grammar.pest")
+    comment_to_line_end(ctx, "C09.R6", G)
     # ---- R3 (cont.) the builder hands its comment flag to every recursive call
     ctx.rule("C09.R3b", "inside the comment-preserving AST builder every recursive descent passes the `preserve_comments` flag on: no call of the non-preserving entry point and no constant flag", floor=5)
     from lib import hir as H
